@@ -291,27 +291,56 @@ class C_Choice_bool_value:
 
 @contract(M, "Symbol.str_value", params=["self"], kind="property", cls="Symbol", result="str", modifies=CACHES)
 class C_Symbol_str_value:
-    # the proof is split by the option's type (the union of the cases is exhaustive by inv_orig_type)
+    # the proof is split by the option's type and, for numbers, by which source provides the value (the union of
+    # the cases is exhaustive: obligation Symbol.str_value#cases-exhaustive)
     def case_bool_unknown(self):
         return self.orig_type == BOOL or self.orig_type == UNKNOWN
-
-    def case_int(self):
-        return self.orig_type == INT
-
-    def case_hex(self):
-        return self.orig_type == HEX
 
     def case_string(self):
         return self.orig_type == STRING
 
-    def case_float(self):
-        return self.orig_type == FLOAT
+    def case_int_forced(self):
+        return self.orig_type == INT and F_ON(self)
+
+    def case_int_user(self):
+        return self.orig_type == INT and not F_ON(self) and user_ok_num(self)
+
+    def case_int_dflt_range(self):
+        return self.orig_type == INT and not F_ON(self) and not user_ok_num(self) and R_ON(self)
+
+    def case_int_dflt_norange(self):
+        return self.orig_type == INT and not F_ON(self) and not user_ok_num(self) and not R_ON(self)
+
+    def case_hex_forced(self):
+        return self.orig_type == HEX and F_ON(self)
+
+    def case_hex_user(self):
+        return self.orig_type == HEX and not F_ON(self) and user_ok_num(self)
+
+    def case_hex_dflt_range(self):
+        return self.orig_type == HEX and not F_ON(self) and not user_ok_num(self) and R_ON(self)
+
+    def case_hex_dflt_norange(self):
+        return self.orig_type == HEX and not F_ON(self) and not user_ok_num(self) and not R_ON(self)
+
+    def case_float_forced(self):
+        return self.orig_type == FLOAT and F_ON(self)
+
+    def case_float_user(self):
+        return self.orig_type == FLOAT and not F_ON(self) and user_ok_flt(self)
+
+    def case_float_dflt_range(self):
+        return self.orig_type == FLOAT and not F_ON(self) and not user_ok_flt(self) and R_ON(self)
+
+    def case_float_dflt_norange(self):
+        return self.orig_type == FLOAT and not F_ON(self) and not user_ok_flt(self) and not R_ON(self)
 
     def assume_entry(self):
         t = self.orig_type
-        return (SV(self) == DEF_SV(self)
+        return ((t == BOOL or t == UNKNOWN or sources_defined(self))
+                and SV(self) == DEF_SV(self)
                 and (t == BOOL or t == UNKNOWN or W2C(self) == DEF_W2C(self))
-                and (t == BOOL or t == UNKNOWN or FORCED(self) == (forced_sym(self) is not None)))
+                and (t == BOOL or t == UNKNOWN or FORCED(self) == F_ON(self)))
 
     def ensures_value(self, result):
         return result == SV(self)
@@ -473,73 +502,148 @@ def num0(text, base):
     return ite(parses_int(text, base), int_val(text, base), 0)
 
 
-def range_on(s):
+def float0(text):
+    """numeric reading of a value text; text that is not a finite float reads as 0.0"""
+    return ite(parses_float(text), float_val(text), to_real(0))
+
+
+def norm_float(text):
+    """canonical notation of a float text ("5" -> "5.0"); text that does not parse is kept"""
+    return ite(parses_float(text), str_of_float(float_val(text)), text)
+
+
+# ---- the sources of a value, each "the first entry whose condition holds" (language.rst); they are named by
+# uninterpreted functions whose defining equations (the loops below) are instantiated once, at the receiver
+R_ON = uf("R_ON", ["V"], "bool")      # a `range` with a true condition applies
+R_LO = uf("R_LO", ["V"], "str")       # value text of its lower / upper bound operand
+R_HI = uf("R_HI", ["V"], "str")
+F_ON = uf("F_ON", ["V"], "bool")      # an enabled `set` forces a value
+F_NAME = uf("F_NAME", ["V"], "str")   # literal text of its value operand
+F_SV = uf("F_SV", ["V"], "str")       # value of its value operand (string options: `set S=OTHER`)
+W_ON = uf("W_ON", ["V"], "bool")      # an enabled `set default` applies (target's own dependencies hold)
+W_NAME = uf("W_NAME", ["V"], "str")
+W_SV = uf("W_SV", ["V"], "str")
+D_ON = uf("D_ON", ["V"], "bool")      # a `default` with a true condition applies
+D_SV = uf("D_SV", ["V"], "str")       # value of its operand
+
+
+def r_on(s):
     for lo, hi, c in s.ranges:
         if EV(c) != 0:
             return True
     return False
 
 
-def range_lo(s):
+def r_lo(s):
     for lo, hi, c in s.ranges:
         if EV(c) != 0:
-            return num0(SV(lo), num_base(s))
-    return 0
+            return SV(lo)
+    return ""
+
+
+def r_hi(s):
+    for lo, hi, c in s.ranges:
+        if EV(c) != 0:
+            return SV(hi)
+    return ""
+
+
+def f_on(s):
+    for v, c, src in s.rev_values:
+        if EV(c) != 0:
+            return True
+    return False
+
+
+def f_name(s):
+    for v, c, src in s.rev_values:
+        if EV(c) != 0:
+            return v.name
+    return ""
+
+
+def f_sv(s):
+    for v, c, src in s.rev_values:
+        if EV(c) != 0:
+            return SV(v)
+    return ""
+
+
+def w_on(s):
+    for v, c, src in s.weak_rev_values:
+        if EV(c) != 0 and EV(s.direct_dep) != 0:
+            return True
+    return False
+
+
+def w_name(s):
+    for v, c, src in s.weak_rev_values:
+        if EV(c) != 0 and EV(s.direct_dep) != 0:
+            return v.name
+    return ""
+
+
+def w_sv(s):
+    for v, c, src in s.weak_rev_values:
+        if EV(c) != 0 and EV(s.direct_dep) != 0:
+            return SV(v)
+    return ""
+
+
+def d_on(s):
+    for d, c in s.defaults:
+        if EV(c) != 0:
+            return True
+    return False
+
+
+def d_sv(s):
+    for d, c in s.defaults:
+        if EV(c) != 0:
+            return SV(d)
+    return ""
+
+
+def sources_defined(s):
+    """defining equations of the source functions at s"""
+    return (R_ON(s) == r_on(s) and R_LO(s) == r_lo(s) and R_HI(s) == r_hi(s)
+            and F_ON(s) == f_on(s) and F_NAME(s) == f_name(s) and F_SV(s) == f_sv(s)
+            and W_ON(s) == w_on(s) and W_NAME(s) == w_name(s) and W_SV(s) == w_sv(s)
+            and D_ON(s) == d_on(s) and D_SV(s) == d_sv(s))
+
+
+def auto_sym(s):
+    return s.env_var is not None or s is s.kconfig.defconfig_list
+
+
+# ---- int / hex (C01, C06)
+def range_lo(s):
+    return num0(R_LO(s), num_base(s))
 
 
 def range_hi(s):
-    for lo, hi, c in s.ranges:
-        if EV(c) != 0:
-            return num0(SV(hi), num_base(s))
-    return 0
-
-
-def forced_sym(s):
-    """the value operand of the first enabled `set`, or None"""
-    for v, c, src in s.rev_values:
-        if EV(c) != 0:
-            return v
-    return None
-
-
-def weak_sym(s):
-    """the value operand of the first enabled `set default` whose target's dependencies hold, or None"""
-    for v, c, src in s.weak_rev_values:
-        if EV(c) != 0 and EV(s.direct_dep) != 0:
-            return v
-    return None
-
-
-def default_sym(s):
-    """the operand of the first `default` whose condition holds, or None"""
-    for d, c in s.defaults:
-        if EV(c) != 0:
-            return d
-    return None
+    return num0(R_HI(s), num_base(s))
 
 
 def user_ok_num(s):
     """the user's value counts: prompt visible, not overridden by `set`, and inside the active range"""
     uv = s._user_value
-    if VIS(s) == 0 or uv is None or forced_sym(s) is not None:
+    if VIS(s) == 0 or uv is None or F_ON(s):
         return False
     n = int_val(uv, num_base(s))
-    return not range_on(s) or (range_lo(s) <= n and n <= range_hi(s))
+    return not R_ON(s) or (range_lo(s) <= n and n <= range_hi(s))
 
 
 def raw_num(s):
     """precedence of C01 for int / hex, before clamping"""
-    f = forced_sym(s)
-    if f is not None:
-        return f.name
+    if F_ON(s):
+        return F_NAME(s)
     if user_ok_num(s):
         return s._user_value
-    w = weak_sym(s)
-    if w is not None:
-        return w.name
-    d = default_sym(s)
-    if d is not None:
-        return SV(d)
+    if W_ON(s):
+        return W_NAME(s)
+    if D_ON(s):
+        return D_SV(s)
     return ""
 
 
@@ -549,7 +653,7 @@ def canon_num(s, n):
 
 def DEF_SV_num(s):
     raw = raw_num(s)
-    if range_on(s):
+    if R_ON(s):
         n = num0(raw, num_base(s))
         if n < range_lo(s):
             return canon_num(s, range_lo(s))
@@ -558,42 +662,79 @@ def DEF_SV_num(s):
     return raw
 
 
-def auto_sym(s):
-    return s.env_var is not None or s is s.kconfig.defconfig_list
-
-
 def DEF_W2C_num(s):
     if auto_sym(s):
         return False
-    return (VIS(s) != 0 or forced_sym(s) is not None
-            or (not user_ok_num(s) and (weak_sym(s) is not None or default_sym(s) is not None)))
+    return VIS(s) != 0 or F_ON(s) or (not user_ok_num(s) and (W_ON(s) or D_ON(s)))
 
 
 # ---- string
 def user_ok_str(s):
-    return VIS(s) != 0 and s._user_value is not None and forced_sym(s) is None
+    return VIS(s) != 0 and s._user_value is not None and not F_ON(s)
 
 
 def DEF_SV_string(s):
-    f = forced_sym(s)
-    if f is not None:
-        return SV(f)
+    if F_ON(s):
+        return F_SV(s)
     if user_ok_str(s):
         return s._user_value
-    w = weak_sym(s)
-    if w is not None and SV(w) != "":
-        return SV(w)
-    d = default_sym(s)
-    if d is not None:
-        return SV(d)
+    if W_ON(s) and W_SV(s) != "":
+        return W_SV(s)
+    if D_ON(s):
+        return D_SV(s)
     return ""
 
 
 def DEF_W2C_string(s):
     if auto_sym(s):
         return False
-    return (VIS(s) != 0 or forced_sym(s) is not None
-            or (not user_ok_str(s) and (weak_sym(s) is not None or default_sym(s) is not None)))
+    return VIS(s) != 0 or F_ON(s) or (not user_ok_str(s) and (W_ON(s) or D_ON(s)))
+
+
+# ---- float (C01, C06): same precedence; literals and defaults are shown in canonical float notation
+def frange_lo(s):
+    return float0(R_LO(s))
+
+
+def frange_hi(s):
+    return float0(R_HI(s))
+
+
+def user_ok_flt(s):
+    uv = s._user_value
+    if VIS(s) == 0 or uv is None or F_ON(s):
+        return False
+    x = float_val(uv)
+    return not R_ON(s) or (frange_lo(s) <= x and x <= frange_hi(s))
+
+
+def raw_flt(s):
+    if F_ON(s):
+        return norm_float(F_NAME(s))
+    if user_ok_flt(s):
+        return s._user_value
+    if W_ON(s):
+        return norm_float(W_NAME(s))
+    if D_ON(s):
+        return norm_float(D_SV(s))
+    return ""
+
+
+def DEF_SV_float(s):
+    raw = raw_flt(s)
+    if R_ON(s):
+        x = float0(raw)
+        if x < frange_lo(s):
+            return str_of_float(frange_lo(s))
+        if x > frange_hi(s):
+            return str_of_float(frange_hi(s))
+    return raw
+
+
+def DEF_W2C_float(s):
+    if auto_sym(s):
+        return False
+    return VIS(s) != 0 or F_ON(s) or (not user_ok_flt(s) and (W_ON(s) or D_ON(s)))
 
 
 def DEF_SV(s):
@@ -606,7 +747,7 @@ def DEF_SV(s):
         return DEF_SV_num(s)
     if t == STRING:
         return DEF_SV_string(s)
-    return FSV(s)
+    return DEF_SV_float(s)
 
 
 def DEF_W2C(s):
@@ -615,8 +756,4 @@ def DEF_W2C(s):
         return DEF_W2C_num(s)
     if t == STRING:
         return DEF_W2C_string(s)
-    return FW2C(s)
-
-
-FSV = uf("FSV", ["V"], "str")
-FW2C = uf("FW2C", ["V"], "bool")
+    return DEF_W2C_float(s)
